@@ -354,6 +354,22 @@ fn c02(ctx: &Ctx, rep: &mut Report) {
             continue;
         }
         let mut st = state.clone();
+        // every second state carries position dependent permission bits, so that a mode taken from the wrong
+        // entry (a parent, the source root, a link instead of its target) shows
+        let decorate = (si / (ctx.shards / 2).max(1)) % 2 == 1;
+        for (k, n) in st.nodes.iter_mut() {
+            if decorate && k != "/" {
+                let h = k.bytes().fold(7u32, |a, b| a.wrapping_mul(31).wrapping_add(b as u32)) as usize;
+                match n.kind {
+                    NKind::Dir => n.mode = 0o40000 | [0o700, 0o750, 0o711, 0o755][h % 4],
+                    NKind::File(_) => n.mode = 0o100000 | [0o600, 0o640, 0o644, 0o700][h % 4],
+                    _ => {},
+                }
+            }
+        }
+        if decorate {
+            rep.count("states_with_position_dependent_modes", 1);
+        }
         for n in st.nodes.values_mut() {
             n.uid = OWNER;
             n.gid = OWNER;
